@@ -105,6 +105,10 @@ impl<T> SocksRequest<T> {
 
         // request
         let version = socket.read_u8().await.context("read version")?;
+        // this byte selects the format of the reply later on: anything but 5 is not a request of this session
+        if version != SOCKS_VER_5 {
+            bail!("Unknown socks version in request: {}", version)
+        }
         let cmd = socket.read_u8().await.context("read cmd")?;
         let _rsv = socket.read_u8().await.context("read")?;
         let atype = socket.read_u8().await.context("read addr type")?;
